@@ -35,8 +35,9 @@ package ch
 //@ -- flushBuf writes b to the connection (or nothing) and always empties b
 //@ contract (c *Client) flushBuf(ctx, b) (err) props(C02,C04,C10)
 //@   requires c != nil && b != nil && ctx != nil
-//@   modifies b.Buf, c.conn.out, c.conn.olen, all(ctx)
+//@   modifies b.Buf, c.conn.out, c.conn.olen, c.conn.warms, c.conn.wdisarms, all(ctx)
 //@   ensures len(b.Buf) == 0 {buffer-reset}
+//@   ensures c.conn.warms > old(c.conn.warms) ==> c.conn.wdisarms > old(c.conn.wdisarms) [C04,C10] {an-armed-write-deadline-is-cleared-before-returning}
 //@   ensures err == nil ==> c.conn.olen == old(c.conn.olen) + old(len(b.Buf)) {all-written}
 //@   ensures old(c.conn.olen) <= c.conn.olen && c.conn.olen <= old(c.conn.olen) + old(len(b.Buf)) {at-most-buffer}
 //@   ensures forall k in 0..c.conn.olen - old(c.conn.olen) :: c.conn.out[old(c.conn.olen) + k] == old(b.Buf[k]) {prefix-of-buffer}
@@ -45,7 +46,7 @@ package ch
 //@ -- cancelQuery writes exactly the one-byte Cancel packet (best effort) and always closes
 //@ contract (c *Client) cancelQuery() (err) props(C04,C10,C12)
 //@   requires c != nil
-//@   modifies c.closed, c.mux, c.conn.closed, c.conn.closes, c.conn.out, c.conn.olen
+//@   modifies c.closed, c.mux, c.conn.closed, c.conn.closes, c.conn.out, c.conn.olen, c.conn.warms, c.conn.wdisarms
 //@   ensures c.closed {always-closes}
 //@   ensures !old(c.closed) ==> c.conn.closed {conn-closed}
 //@   ensures c.conn.olen <= old(c.conn.olen) + 1 {at-most-one-byte}
@@ -82,6 +83,9 @@ package ch
 //@ -- that cannot be set, write error) must not leave it behind: after a server exception the client
 //@ -- stays open and the next request would send it
 //@   ensures len(c.writer.vec) == 0 && c.writer.bufOffset == 0 && len(c.writer.buf.Buf) == 0 [C04] {staged-output-never-survives-a-flush}
+//@ -- a write deadline taken from the query's context does not outlive the flush: after a server
+//@ -- exception the client stays open, and a stale deadline would fail the next request
+//@   ensures c.conn.warms > old(c.conn.warms) ==> c.conn.wdisarms > old(c.conn.wdisarms) [C04] {an-armed-write-deadline-is-cleared-before-returning}
 //@   ensures wRI(c.writer)
 
 //@ -- every packet read is bounded by min(now + read timeout, context deadline): whenever the context
